@@ -145,9 +145,10 @@ def word_attempts(eff, w):
             if 'strip_prefix' in nm and plain:
                 continue
             kind = None
-            if ('from_str::<' in nm and 'Int' in nm and plain) or ('from_hex_str' in nm):
+            # `s.parse::<T>()` is `T::from_str(s)` (std): both spellings name the same attempt
+            if (('from_str::<' in nm or 'parse::<' in nm) and nm.rstrip('>').endswith('::Int') and plain) or ('from_hex_str' in nm):
                 kind = 'int'
-            elif 'parse::<bool>' in nm and plain:
+            elif ('parse::<bool>' in nm or 'from_str::<bool>' in nm) and plain:
                 kind = 'bool'
             elif 'parse::<' in nm and 'Float' in nm:
                 kind = 'float' if plain else 'join'
